@@ -332,3 +332,53 @@ func checkChildMappingUntouched(c *core.Ctx, rule string) {
 	}
 	c.Floor(rule, 8, "Typecheck methods that receive a child's mapping")
 }
+
+// checkNumericEquality (EQNUM): SQL compares an integer with a float numerically. The `=` / `!=` descriptors take
+// (Any, Any) and delegate to Value.Equal; Value.Compare orders values of different TypeIDs by the TypeID, so an Int is
+// never equal to a Float. Either equality gets numeric specialisations (or the typechecker rejects the comparison as it
+// does for <, <=, …), or `where a = 1` on a JSON file (whose numbers are all Float) silently matches nothing.
+func checkNumericEquality(c *core.Ctx, rule string) {
+	p := c.Prog
+	t := loadFunctions(c, rule)
+	cmp := p.Func("octosql", "Value.Compare")
+	if t == nil || cmp == nil {
+		if cmp == nil {
+			c.Unknown(rule, "octosql.Value.Compare", 0, "anchor not found")
+		}
+		return
+	}
+	// does Compare separate values by TypeID before looking at payloads?
+	byTypeID := false
+	if len(cmp.Decl.Body.List) > 0 {
+		if is, ok := cmp.Decl.Body.List[0].(*ast.IfStmt); ok {
+			cs := core.ExprStr(is.Cond)
+			if strings.Contains(cs, ".TypeID != ") && strings.HasSuffix(cs, ".TypeID") {
+				byTypeID = true
+			}
+		}
+	}
+	for _, name := range []string{"=", "!="} {
+		var anyAny, numeric bool
+		var pos token.Pos
+		for _, d := range t.descs {
+			if d.Name != name {
+				continue
+			}
+			pos = d.Lit.Pos()
+			kinds, _, known := t.argKinds(d)
+			if !known || len(kinds) != 2 {
+				continue
+			}
+			a, b := kinds[0].String(), kinds[1].String()
+			if a == "Any" && b == "Any" && d.Function != nil && strings.Contains(core.FullStr(d.Function.Body), ".Equal(") {
+				anyAny = true
+			}
+			if (a == "Int" && b == "Float") || (a == "Float" && b == "Int") {
+				numeric = true
+			}
+		}
+		key := "functions." + name + "/Int with Float"
+		c.Decide(!(anyAny && byTypeID) || numeric, rule, key, pos, 2, "Int and Float operands are compared numerically (or not by Value.Equal)",
+			"`"+name+"` accepts an Int and a Float operand (Any, Any) and compares them with Value.Equal, which separates values by TypeID before looking at them: 1 = 1.0 is false, `where a = 1` on a JSON file returns nothing, and a csv-Int to json-number join matches nothing")
+	}
+}
